@@ -1,5 +1,6 @@
 //! vh — harness that runs /repo's implementation for the checks in /verif.
 //! Every call into /repo code is wrapped in catch_unwind: a panic is an observation.
+mod c12_run;
 mod dep_run;
 mod edits_run;
 mod fmt_run;
@@ -11,6 +12,7 @@ mod mir_types;
 mod mirsem;
 mod ops_table;
 mod opt_kernels;
+mod rewrite_run;
 mod rng;
 mod scope_run;
 mod server_run;
@@ -30,6 +32,7 @@ fn main() {
   }
   let rest = &args[2..];
   match args[1].as_str() {
+    "c12-run" => c12_run::main(rest),
     "dep-run" => dep_run::main(rest),
     "edits-run" => edits_run::main(rest),
     "fmt-run" => fmt_run::main(rest),
@@ -41,6 +44,7 @@ fn main() {
     "mir-run" => mirsem::main(rest),
     "ops-table" => ops_table::main(rest),
     "opt-kernels" => opt_kernels::main(rest),
+    "rewrite-run" => rewrite_run::main(rest),
     "scope-run" => scope_run::main(rest),
     "server-run" => server_run::main(rest),
     "src-run" => srcsem::main(rest),
